@@ -293,7 +293,8 @@ def g_tree(ctx, acc, name, module, cfgtext, timeout=1500, extra=(), workers=16):
 
 def c19(ctx):
     acc = Acc()
-    msize = pick(ctx, 4, 6)
+    # (5 nodes would be about 10^8 trees: the exhaustive bound is the same in both tiers, the thorough tier grows more random trees)
+    msize = 4
     g_tree(ctx, acc, 'c19trees', 'MC_C19', cfg(['MaxSize = %d' % msize, 'Mode = "trees"'], ['InvTwoDefs', 'EmitVector']), timeout=3000)
     g_tree(ctx, acc, 'c19formats', 'MC_C19', cfg(['MaxSize = 1', 'Mode = "formats"'], ['InvTwoDefs', 'EmitVector']))
     g_tree(ctx, acc, 'c19units', 'MC_C19', cfg(['MaxSize = 1', 'Mode = "units"'], ['InvUnits', 'EmitUnits']))
@@ -706,7 +707,7 @@ def c16(ctx):
     recs = [json.loads(l) for l in open(trace) if l.startswith('{')]
     if rp.returncode != 0 or not recs:
         raise ctx.t.ToolError('program generation failed: ' + rp.stderr[-400:])
-    configs = [(2, 2), (3, 1)] if ctx.quick else [(2, 2), (3, 1), (3, 2)]
+    configs = [(2, 2), (3, 1)] if ctx.quick else [(2, 2), (3, 1), (2, 3)]
     # programs with more than 255 generated identifiers (130 matchers in front of two printers)
     big = '%s/c16big.ndjson' % ctx.work
     cmd = ctx.t.tlc_cmd('c16big_gen', 'MC_Trees', cfg(['Family = "c16big"', 'MaxSize = 1'], ['EmitTree']), workers=2)
